@@ -97,6 +97,16 @@ struct Cfg {
 	maxacc: u16,
 	infl: u8,
 	hmin: u64,
+	/// node-1 overrides (0 / absent = same as node 0)
+	resppm_b: u32,
+	maxacc_b: u16,
+	infl_b: u8,
+	hmin_b: u64,
+	/// dust limits advertised in open_channel / accept_channel (0 = the built-in 354)
+	hd: [u64; 2],
+	/// force_close_avoidance_max_fee_satoshis per node
+	fcamax: [u64; 2],
+	upfront: bool,
 }
 
 fn esc(s: &str) -> String {
@@ -226,6 +236,23 @@ impl<'a, 'b, 'c, 'd> Env<'a, 'b, 'c, 'd> {
 			}
 		}
 		"null".to_string()
+	}
+
+	/// `[all targets, ChannelCloseMinimum override or -1, NonAnchorChannelFee override or -1]`
+	fn est_js(&self, x: usize) -> String {
+		use lightning::chain::chaininterface::ConfirmationTarget as CT;
+		let fe = self.nodes[x].fee_estimator;
+		let ov = fe.target_override.lock().unwrap();
+		let g = |t: CT| ov.get(&t).map(|v| *v as i64).unwrap_or(-1);
+		format!("[{},{},{}]", *fe.sat_per_kw.lock().unwrap(), g(CT::ChannelCloseMinimum), g(CT::NonAnchorChannelFee))
+	}
+
+	fn estimators_agree(&self) -> bool {
+		let a = *self.nodes[0].fee_estimator.sat_per_kw.lock().unwrap();
+		let b = *self.nodes[1].fee_estimator.sat_per_kw.lock().unwrap();
+		a == b
+			&& self.nodes[0].fee_estimator.target_override.lock().unwrap().is_empty()
+			&& self.nodes[1].fee_estimator.target_override.lock().unwrap().is_empty()
 	}
 
 	fn limits(&self, x: usize) -> Option<(u64, u64, bool)> {
@@ -398,7 +425,7 @@ impl<'a, 'b, 'c, 'd> Env<'a, 'b, 'c, 'd> {
 		let mut s = String::new();
 		write!(
 			s,
-			"{{\"l\":\"{}\"{},\"em\":[[{}],[{}]],\"errs\":[{}],\"ev\":[{}],\"commits\":[{}],\"bcast\":[{}],\"d\":[{},{}],\"det\":[{},{}],\"ql\":[{},{}],\"conn\":{}}}",
+			"{{\"l\":\"{}\"{},\"em\":[[{}],[{}]],\"errs\":[{}],\"ev\":[{}],\"commits\":[{}],\"bcast\":[{}],\"d\":[{},{}],\"det\":[{},{}],\"ql\":[{},{}],\"conn\":{},\"est\":[{},{}]}}",
 			esc(label),
 			extra,
 			emitted[0].join(","),
@@ -413,7 +440,9 @@ impl<'a, 'b, 'c, 'd> Env<'a, 'b, 'c, 'd> {
 			self.details_js(1),
 			self.q[0].len(),
 			self.q[1].len(),
-			self.connected as u8
+			self.connected as u8,
+			self.est_js(0),
+			self.est_js(1)
 		)
 		.unwrap();
 		STEPS.with(|v| v.borrow_mut().push(s));
@@ -653,13 +682,53 @@ impl<'a, 'b, 'c, 'd> Env<'a, 'b, 'c, 'd> {
 				}
 				for x in 0..2 {
 					*self.nodes[x].fee_estimator.sat_per_kw.lock().unwrap() = r;
+					self.nodes[x].fee_estimator.target_override.lock().unwrap().clear();
 				}
 				self.record(&format!("fee {}", r), "");
 			},
 			"tick" => {
 				let x = num(1) as usize & 1;
+				// with scripted, disagreeing estimators a fee update would legitimately be refused
+				// ("feerate much too low"): those scripts are for the closing negotiation only
+				if !self.estimators_agree() {
+					self.record(&format!("tick {}", x), ",\"skip\":1");
+					return;
+				}
 				self.nodes[x].node.timer_tick_occurred();
 				self.record(&format!("tick {}", x), "");
+			},
+			"est" => {
+				// one node's estimator, all confirmation targets
+				let x = num(1) as usize & 1;
+				let r = num(2) as u32;
+				let busy = (0..2).any(|y| match self.dump(y) {
+					Some(d) => d.pending_update_fee.is_some() || d.holding_cell_update_fee.is_some(),
+					None => false,
+				}) || self.q.iter().any(|q| q.iter().any(|m| matches!(m, Wire::Fee(_))));
+				if busy {
+					self.record(&format!("est {} {}", x, r), ",\"skip\":1");
+					return;
+				}
+				*self.nodes[x].fee_estimator.sat_per_kw.lock().unwrap() = r;
+				self.record(&format!("est {} {}", x, r), "");
+			},
+			"estt" => {
+				// one node's estimate for one confirmation target
+				use lightning::chain::chaininterface::ConfirmationTarget as CT;
+				let x = num(1) as usize & 1;
+				let r = num(3) as u32;
+				let t = match t.get(2).cloned().unwrap_or("") {
+					"closemin" => Some(CT::ChannelCloseMinimum),
+					"normal" => Some(CT::NonAnchorChannelFee),
+					_ => None,
+				};
+				match t {
+					Some(t) => {
+						self.nodes[x].fee_estimator.target_override.lock().unwrap().insert(t, r);
+						self.record(l, "");
+					},
+					None => self.record(l, ",\"skip\":1,\"badlabel\":1"),
+				}
 			},
 			"deliver" => {
 				let x = num(1) as usize & 1;
@@ -727,7 +796,10 @@ impl<'a, 'b, 'c, 'd> Env<'a, 'b, 'c, 'd> {
 }
 
 fn parse_cfg(head: &str) -> Cfg {
-	let mut c = Cfg { id: "?".to_string(), ct: 0, value: 100_000, push: 0, fee: 253, resppm: 10_000, zr: 0, maxacc: 50, infl: 100, hmin: 1 };
+	let mut c = Cfg {
+		id: "?".to_string(), ct: 0, value: 100_000, push: 0, fee: 253, resppm: 10_000, zr: 0, maxacc: 50, infl: 100, hmin: 1,
+		resppm_b: 0, maxacc_b: 0, infl_b: 0, hmin_b: u64::MAX, hd: [0, 0], fcamax: [1000, 1000], upfront: true,
+	};
 	let t: Vec<&str> = head.split_whitespace().collect();
 	if t.len() > 1 {
 		c.id = t[1].to_string();
@@ -745,6 +817,15 @@ fn parse_cfg(head: &str) -> Cfg {
 				"maxacc" => c.maxacc = n as u16,
 				"infl" => c.infl = n as u8,
 				"hmin" => c.hmin = n,
+				"resppmb" => c.resppm_b = n as u32,
+				"maxaccb" => c.maxacc_b = n as u16,
+				"inflb" => c.infl_b = n as u8,
+				"hminb" => c.hmin_b = n,
+				"hd0" => c.hd[0] = n,
+				"hd1" => c.hd[1] = n,
+				"fcamax0" => c.fcamax[0] = n,
+				"fcamax1" => c.fcamax[1] = n,
+				"upfront" => c.upfront = n != 0,
 				_ => {},
 			}
 		}
@@ -769,12 +850,28 @@ fn run_scenario(line: &str) -> String {
 	user_cfg.channel_handshake_config.our_max_accepted_htlcs = c.maxacc;
 	user_cfg.channel_handshake_config.announced_channel_max_inbound_htlc_value_in_flight_percentage = c.infl;
 	user_cfg.channel_handshake_config.our_htlc_minimum_msat = c.hmin;
+	user_cfg.channel_handshake_config.commit_upfront_shutdown_pubkey = c.upfront;
+	user_cfg.channel_config.force_close_avoidance_max_fee_satoshis = c.fcamax[0];
+	let mut user_cfg_b = user_cfg.clone();
+	if c.resppm_b != 0 {
+		user_cfg_b.channel_handshake_config.their_channel_reserve_proportional_millionths = c.resppm_b;
+	}
+	if c.maxacc_b != 0 {
+		user_cfg_b.channel_handshake_config.our_max_accepted_htlcs = c.maxacc_b;
+	}
+	if c.infl_b != 0 {
+		user_cfg_b.channel_handshake_config.announced_channel_max_inbound_htlc_value_in_flight_percentage = c.infl_b;
+	}
+	if c.hmin_b != u64::MAX {
+		user_cfg_b.channel_handshake_config.our_htlc_minimum_msat = c.hmin_b;
+	}
+	user_cfg_b.channel_config.force_close_avoidance_max_fee_satoshis = c.fcamax[1];
 	let chanmon_cfgs = create_chanmon_cfgs(2);
 	for i in 0..2 {
 		*chanmon_cfgs[i].fee_estimator.sat_per_kw.lock().unwrap() = c.fee;
 	}
 	let node_cfgs = create_node_cfgs(2, &chanmon_cfgs);
-	let node_chanmgrs = create_node_chanmgrs(2, &node_cfgs, &[Some(user_cfg.clone()), Some(user_cfg)]);
+	let node_chanmgrs = create_node_chanmgrs(2, &node_cfgs, &[Some(user_cfg), Some(user_cfg_b)]);
 	let nodes = create_network(2, &node_cfgs, &node_chanmgrs);
 	for i in 0..2 {
 		*nodes[i].connect_style.borrow_mut() = ConnectStyle::BestBlockFirst;
@@ -782,10 +879,18 @@ fn run_scenario(line: &str) -> String {
 	let ids = [nodes[0].node.get_our_node_id(), nodes[1].node.get_our_node_id()];
 	let _ = vh::commit_log::take();
 	// ---- open the channel, node 0 funds
-	let temp = if c.zr & 1 == 1 && c.ct != 0 {
-		nodes[0].node.create_channel_to_trusted_peer_0reserve(ids[1], c.value, c.push, 42, None, None).unwrap()
+	let temp_res = if c.zr & 1 == 1 && c.ct != 0 {
+		nodes[0].node.create_channel_to_trusted_peer_0reserve(ids[1], c.value, c.push, 42, None, None)
 	} else {
-		nodes[0].node.create_channel(ids[1], c.value, c.push, 42, None, None).unwrap()
+		nodes[0].node.create_channel(ids[1], c.value, c.push, 42, None, None)
+	};
+	let temp = match temp_res {
+		Ok(t) => t,
+		Err(e) => {
+			// the configuration does not describe a channel the library agrees to open
+			std::mem::forget(nodes);
+			return format!("{{\"id\":\"{}\",\"openfail\":\"{}\",\"steps\":[]}}", esc(&c.id), esc(&format!("{:?}", e)));
+		},
 	};
 	let open = nodes[0]
 		.node
@@ -793,6 +898,11 @@ fn run_scenario(line: &str) -> String {
 		.into_iter()
 		.find_map(|e| if let MessageSendEvent::SendOpenChannel { msg, .. } = e { Some(msg) } else { None })
 		.unwrap();
+	let mut open = open;
+	if c.hd[0] != 0 {
+		open.common_fields.dust_limit_satoshis = c.hd[0];
+		assert!(vh::set_holder_dust_limit(nodes[0].node, &ids[1], &temp, c.hd[0]));
+	}
 	nodes[1].node.handle_open_channel(ids[0], &open);
 	for ev in nodes[1].node.get_and_clear_pending_events() {
 		if let Event::OpenChannelRequest { temporary_channel_id, counterparty_node_id, .. } = ev {
@@ -810,8 +920,19 @@ fn run_scenario(line: &str) -> String {
 		.node
 		.get_and_clear_pending_msg_events()
 		.into_iter()
-		.find_map(|e| if let MessageSendEvent::SendAcceptChannel { msg, .. } = e { Some(msg) } else { None })
-		.unwrap();
+		.find_map(|e| if let MessageSendEvent::SendAcceptChannel { msg, .. } = e { Some(msg) } else { None });
+	let accept = match accept {
+		Some(a) => a,
+		None => {
+			std::mem::forget(nodes);
+			return format!("{{\"id\":\"{}\",\"openfail\":\"open_channel refused by the acceptor\",\"steps\":[]}}", esc(&c.id));
+		},
+	};
+	let mut accept = accept;
+	if c.hd[1] != 0 {
+		accept.common_fields.dust_limit_satoshis = c.hd[1];
+		assert!(vh::set_holder_dust_limit(nodes[1].node, &ids[0], &temp, c.hd[1]));
+	}
 	nodes[0].node.handle_accept_channel(ids[1], &accept);
 	let tx = sign_funding_transaction(&nodes[0], &nodes[1], c.value, temp);
 	let (msgs_ready, chan_id) = create_chan_between_nodes_with_value_confirm(&nodes[0], &nodes[1], &tx);
@@ -852,7 +973,7 @@ fn run_scenario(line: &str) -> String {
 	}
 	HEAD.with(|h| {
 		*h.borrow_mut() = format!(
-			"\"id\":\"{}\",\"cfg\":{{\"ct\":{},\"value\":{},\"push\":{},\"fee\":{},\"resppm\":{},\"zr\":{},\"maxacc\":{},\"infl\":{},\"hmin\":{},\"ctname\":\"{}\"}},\"init_commits\":[{}]",
+			"\"id\":\"{}\",\"cfg\":{{\"ct\":{},\"value\":{},\"push\":{},\"fee\":{},\"resppm\":{},\"zr\":{},\"maxacc\":{},\"infl\":{},\"hmin\":{},\"hd\":[{},{}],\"fcamax\":[{},{}],\"upfront\":{},\"ctname\":\"{}\"}},\"init_commits\":[{}]",
 			esc(&c.id),
 			c.ct,
 			c.value,
@@ -863,6 +984,11 @@ fn run_scenario(line: &str) -> String {
 			c.maxacc,
 			c.infl,
 			c.hmin,
+			c.hd[0],
+			c.hd[1],
+			c.fcamax[0],
+			c.fcamax[1],
+			c.upfront as u8,
 			esc(&ctname),
 			init_commits.join(",")
 		)
